@@ -4,6 +4,8 @@ use super::disp_imports::*;
 mod free_path;
 
 pub use free_path::FreePathStatus;
+#[cfg(feature = "verif-hooks")]
+pub use free_path::verif_hooks as free_path_verif_hooks;
 
 mod advance_rewind;
 
